@@ -171,7 +171,14 @@ pub fn check_result(
             },
         };
         if !ok {
-            bad.push(("position-outside-document".into(), format!("{path} = {}:{} (document {} has {} lines)", p.0, p.1, uri.as_deref().unwrap_or("<request document>"), tm.line_count())));
+            // the shape of the excursion is part of the signature: "the line after the last one, character 0"
+            // (one call site's idea of the end of the document) is a different defect from any other position outside
+            let lines = match uri.as_deref() {
+                Some(u) if u != DOC_URI => others.get(s, u).map(|m| m.line_count()).unwrap_or(0),
+                _ => tm.line_count(),
+            };
+            let shape = if p.0 == lines && p.1 == 0 { "line-after-last:0" } else if p.0 >= lines { "line-beyond" } else { "character-beyond" };
+            bad.push((format!("position-outside-document[{shape}]"), format!("{path} = {}:{} (document {} has {} lines)", p.0, p.1, uri.as_deref().unwrap_or("<request document>"), lines)));
             break;
         }
     }
@@ -525,6 +532,13 @@ fn minimise(std: bool, lg: &Legend, text: &str, method: &str, sig: &str) -> Opti
     let pred = |std: bool, t: &str| -> bool {
         cached(format!("{sig}\u{1}{std}\u{1}{t}"), || with_srv(std, |s| first_with_sig(s, lg, t, method, sig).is_some()))
     };
+    // one root cause = one witness: the least document of the alphabet (empty, then every single Σ1 fragment in
+    // order) that shows the same signature is the witness, whichever larger document exposed it first
+    let canonical = std::iter::once("").chain(SIGMA1.iter().copied()).find(|c| c.len() < text.len() && pred(false, c));
+    let (text, std) = match canonical {
+        Some(c) => (c, false),
+        None => (text, std),
+    };
     let mut min = minimise_doc(text, &|t| pred(std, t));
     let mut std = std;
     if std && pred(false, &min) {
@@ -617,7 +631,7 @@ pub fn run(args: &Args) -> ! {
     phases_done.push(json!({"source": "std-excerpts", "documents": ex.len(), "completed": ok}));
     for (name, sigma, min_k, max_k, std) in &pl.phases {
         let (st, done) = par_words(sigma.len(), *min_k, *max_k, args.threads, &dl, |w, st| {
-            let text = word_text(sigma, w);
+            let text = phase_text(name, sigma, w);
             let sample = w.len() >= 2 && w[0] == 1 && w[1] == 0;
             check_doc(&text, *std, &lg, st, name, sample);
         });
